@@ -47,6 +47,9 @@ type Case struct {
 
 var keys = []string{"a", "b", "c", "d"}
 
+// keys that are patterns or read like numbers: in JSON documents they are strings, matched literally
+var hostileKeys = []string{"a", "a*", "?", "*", "ab", "02134", "0x1F", "1_000", "+5", "1", "true", "null", "a.b", "[0]"}
+
 func genVal(t *rapid.T, depth int) *model.Value {
 	k := rapid.IntRange(0, 9).Draw(t, "k")
 	if depth <= 0 && k >= 4 {
@@ -96,6 +99,10 @@ func genMap(t *rapid.T, depth int) *model.Value {
 
 func genCase(t *rapid.T) Case {
 	c := Case{Form: rapid.SampledFrom([]string{"op", "op", "assign", "reduce"}).Draw(t, "form")}
+	keys = []string{"a", "b", "c", "d"}
+	if rapid.IntRange(0, 4).Draw(t, "hostile") == 0 {
+		keys = rapid.SliceOfNDistinct(rapid.SampledFrom(hostileKeys), 4, 4, func(s string) string { return s }).Draw(t, "hkeys")
+	}
 	n := 2
 	if c.Form == "reduce" {
 		n = rapid.IntRange(2, 5).Draw(t, "nfiles")
